@@ -172,7 +172,7 @@ pub fn preamble() -> &'static [u8] {
 }
 
 /// a terminal drains the pending actions after every character; the check follows a loop for this many steps
-const DRAIN_CAP: u32 = 600;
+const DRAIN_CAP: u32 = 100;
 
 /// number of steps the document gives a loop, if from/to/step are plain numbers: None = never ends (step 0)
 fn loop_steps(s: &IgsSeg) -> Option<Option<u64>> {
@@ -258,10 +258,14 @@ fn run(prefix: u8, segs: &[IgsSeg], alive: &[usize], rep: &Reporter) -> Run {
                     }
                 }
                 if n == polls && polls > 0 {
-                    // all polls used: one more decides whether the loop is still producing actions. If so, stop following it (it
-                    // stays pending in the parser, as under a terminal that stops polling): the segments behind it are judged on their own
-                    if parser.get_next_action(&mut buf, &mut caret, 0).is_some() {
-                        hit_cap = true;
+                    let could_finish = tolerant && matches!(steps_of_seg, Some(Some(k)) if k + 2 <= cap as u64);
+                    // all polls used: one more decides whether the loop is still producing actions
+                    let still = parser.get_next_action(&mut buf, &mut caret, 0).is_some();
+                    if still || !could_finish {
+                        // the loop outlives the polls (or may: an error step answers None as well): stop following it. It stays pending
+                        // in the parser, as under a terminal that stops polling, and the segments behind it are judged on their own.
+                        hit_cap = still;
+                        out.capped = out.capped || !still;
                         cap = 0;
                     }
                 }
@@ -498,7 +502,7 @@ fn value() -> BoxedStrategy<String> {
         4 => prop_oneof![Just(199u32), Just(200), Just(319), Just(320), Just(639), Just(640), Just(399), Just(400)],
         3 => 0u32..2001,
         1 => 9995u32..=9999,
-        1 => prop_oneof![Just(LARGE), Just(99_999u32), 0u32..100_000],
+        1 => prop_oneof![40 => 2000u32..5000, 1 => Just(LARGE), 1 => Just(99_999u32), 1 => 0u32..100_000],
     ];
     (num, 0u8..60).prop_map(|(n, form)| match form {
         0 => format!("-{}", n % 51),
@@ -585,8 +589,8 @@ pub fn seg_strategy() -> BoxedStrategy<IgsSeg> {
     let looped = (
         (any::<u16>(), 0u8..12),
         (
-            prop_oneof![4 => Just(0u32), 3 => Just(1), 3 => Just(2), 3 => Just(3), 3 => Just(5), 3 => Just(10), 3 => Just(100), 3 => Just(199), 3 => Just(639), 1 => prop_oneof![Just(LARGE), Just(99_999)]],
-            prop_oneof![4 => Just(0u32), 3 => Just(1), 3 => Just(2), 3 => Just(3), 3 => Just(5), 3 => Just(10), 3 => Just(100), 3 => Just(199), 3 => Just(639), 1 => prop_oneof![Just(LARGE), Just(99_999)]],
+            prop_oneof![4 => Just(0u32), 3 => Just(1), 3 => Just(2), 3 => Just(3), 3 => Just(5), 3 => Just(10), 3 => Just(100), 3 => Just(199), 3 => Just(639), 1 => prop_oneof![6 => Just(1000u32), 1 => Just(LARGE), 1 => Just(99_999)]],
+            prop_oneof![4 => Just(0u32), 3 => Just(1), 3 => Just(2), 3 => Just(3), 3 => Just(5), 3 => Just(10), 3 => Just(100), 3 => Just(199), 3 => Just(639), 1 => prop_oneof![6 => Just(1000u32), 1 => Just(LARGE), 1 => Just(99_999)]],
             prop_oneof![8 => 1u32..=10, 2 => Just(0u32), 2 => Just(100u32), 1 => Just(50_000u32)],
             prop_oneof![10 => Just(0u32), 1 => Just(1u32), 1 => Just(2u32), 1 => Just(99_999u32)],
         ),
